@@ -95,17 +95,17 @@ func (r *OnChangeMap[K, C, I]) executeItemCallback(callback func(I) error, item 
 		return nil
 	}
 
-	if err := r.executeChangedCallback(); err != nil {
-		return err
-	}
+	// the change was applied already and is kept: the item callback is executed even if the changedCallback fails,
+	// otherwise the consumer of the item callbacks would never learn about this change
+	err := r.executeChangedCallback()
 
 	if callback != nil {
-		if err := callback(item); err != nil {
-			return ierrors.Errorf("failed to execute item callback in OnChangeMap: %w", err)
+		if itemErr := callback(item); itemErr != nil {
+			err = ierrors.Join(err, ierrors.Errorf("failed to execute item callback in OnChangeMap: %w", itemErr))
 		}
 	}
 
-	return nil
+	return err
 }
 
 // ExecuteChangedCallback calls the changedCallback if callbackEnabled is true.
